@@ -83,7 +83,35 @@ def enclosing_tests(root, node):
                     out.append((prev.test, True))
         if isinstance(parent, (ast.FunctionDef, ast.AsyncFunctionDef, ast.Lambda)) and parent is not root:
             break
-    return out
+    return [(_resolve_flag(root, t), pol) for t, pol in out]
+
+
+def _resolve_flag(root, test):
+    """a local bound exactly once to a boolean expression (`is_feb_29 = not self._token_year and ...`; `if not is_feb_29: raise`) stands for
+    that expression wherever it is tested"""
+    if isinstance(test, ast.UnaryOp) and isinstance(test.op, ast.Not):
+        inner = _resolve_flag(root, test.operand)
+        return test if inner is test.operand else ast.UnaryOp(op=ast.Not(), operand=inner)
+    if not isinstance(test, ast.Name) or not isinstance(root, (ast.FunctionDef, ast.AsyncFunctionDef)):
+        return test
+    params = {a.arg for a in root.args.posonlyargs + root.args.args + root.args.kwonlyargs}
+    if test.id in params:
+        return test
+    defs = []
+    for n in ast.walk(root):
+        if isinstance(n, ast.Assign):
+            for t in n.targets:
+                for x in ast.walk(t):
+                    if isinstance(x, ast.Name) and x.id == test.id:
+                        defs.append(n)
+        elif isinstance(n, (ast.AugAssign, ast.AnnAssign, ast.For, ast.NamedExpr)) :
+            tg = n.target
+            if any(isinstance(x, ast.Name) and x.id == test.id for x in ast.walk(tg)):
+                defs.append(None)
+    if len(defs) == 1 and defs[0] is not None and len(defs[0].targets) == 1 and isinstance(defs[0].targets[0], ast.Name) \
+            and isinstance(defs[0].value, (ast.BoolOp, ast.Compare, ast.UnaryOp)):
+        return defs[0].value
+    return test
 
 
 def conjuncts(test, polarity):
@@ -139,3 +167,16 @@ def signed_atoms(test, pol=True):
             out.append((e, s))
     walk(test, pol)
     return out
+
+
+def loop_fallthrough(root, loop):
+    """the statements that run when `loop` ends without leaving it: its else-arm, or - when there is none - the statements that follow the
+    loop in its block (`for ..: if ..: return x` + `else: return y` and the same with `return y` after the loop are one shape)"""
+    if loop.orelse:
+        return loop.orelse
+    for parent in ast.walk(root):
+        for field in ("body", "orelse", "finalbody"):
+            blk = getattr(parent, field, None)
+            if isinstance(blk, list) and loop in blk:
+                return blk[blk.index(loop) + 1:]
+    return []
